@@ -154,3 +154,157 @@ def run_correspondence(ctx, count, hops=True, label="shrun", cls="TrajectorySH")
         ctx.count(label + "_frustrated_hops", st.get("frustrated", 0))
         if prob:
             ctx.corr_mismatch(label, {k: v for k, v in spec.items() if k != "zetas"}, prob)
+
+
+# ------------------------------------------------------------------------------------------------
+# A-FSSH whole runs (MudModel/AStep.lean, op `afrun`)
+# ------------------------------------------------------------------------------------------------
+def record_afssh(spec):
+    """run AugmentedFSSH (two states, exponential integrators) and record everything it reads from outside per step, plus its
+    own state after every step (position, velocity, rho, active state, both moment tensors)"""
+    import mudslide
+    rng = np.random.Generator(np.random.PCG64(spec["model_seed"]))
+    N, n, K = 2, spec["n"], spec["K"]
+    model = SynthModel(rng, N, n, scale=0.03, gap=0.02, quad=0.004, mass=10 ** rng.uniform(2.5, 3.5, size=n))
+    rho0 = random_rho(rng, N, "pure")
+    t = mudslide.AugmentedFSSH(model, np.array(spec["x0"]), np.array(spec["p0"]), rho0, state0=spec["state"], dt=spec["dt"],
+                               t0=spec["t0"], max_steps=K, zeta_list=list(spec["zetas"]), seed_sequence=spec.get("seed", 1))
+    elecs, capR, capP, capE, states, randoms, per_step_es = [], [], [], [], [], [], []
+    orig_update = model.update
+
+    def upd(X, *a, **kw):
+        r = orig_update(X, *a, **kw)
+        elecs.append(_elec_record(r, N) + (np.array(r.force_matrix(), copy=True),))
+        return r
+    model.update = upd
+
+    def capture(orig, store):
+        def f(last, this, *a):
+            with ec.EighCapture() as cap:
+                orig(last, this, *a)
+            store.append(cap.calls[0])
+        return f
+    t.advance_delR = capture(t.advance_delR, capR)
+    t.advance_delP = capture(t.advance_delP, capP)
+    t.propagate_electronics = capture(t.propagate_electronics, capE)
+    orig_random = t.random
+
+    def rnd():
+        v = orig_random()
+        randoms.append(float(v))
+        return v
+    t.random = rnd
+    orig_sh = t.surface_hopping
+    gscale = float(spec.get("gamma_scale", 1.0))
+    if gscale != 1.0:
+        # (collapses are rare with the physical rate on short runs: the rate is scaled up in the implementation; the model gets the
+        #  random numbers divided by the same factor - the loop, the reset and the rate itself are what is being compared)
+        orig_gamma = t.gamma_collapse
+        t.gamma_collapse = lambda electronics=None: orig_gamma(electronics) * gscale
+
+    def sh(last, this):
+        k0 = len(randoms)
+        orig_sh(last, this)
+        per_step_es.append(list(randoms[k0:]))
+        states.append((np.array(t.position), np.array(t.velocity), np.array(t.rho), int(t.state), np.array(t.delR), np.array(t.delP)))
+    t.surface_hopping = sh
+    tr = t.simulate()
+    steps = len(states)
+    line = ["afrun", N, n, steps] + fbs(model.mass) + [fb(spec["dt"])] + fbs(spec["x0"]) + fbs(np.array(spec["p0"]) / model.mass) + \
+        fbs(np.zeros(n)) + cbs(rho0) + [spec["state"], fb(spec["t0"])]
+    H, dc, F, FM = elecs[0]
+    line += fbs(H) + fbs(dc) + fbs(F) + fbs(FM)
+    for k in range(steps):
+        H, dc, F, FM = elecs[k + 1]
+        line += fbs(H) + fbs(dc) + fbs(F) + fbs(FM)
+        for cap in (capR[k], capP[k], capE[k]):
+            line += fbs(cap[1]) + cbs(cap[2])
+        # e < gscale * gamma  <=>  e / gscale < gamma: the model computes the physical rate, the scaled loop sees e / gscale
+        line += [fb(spec["zetas"][k]), len(per_step_es[k])] + fbs([e / gscale for e in per_step_es[k]])
+    hop_ev = sorted([(e["time"], 1, e["to"]) for e in tr.hops] + [(e["time"], 0, e["to"]) for e in tr.events.get("frustrated_hop", [])])
+    col_ev = [e["time"] for e in tr.events.get("collapse", [])]
+    return line, states, hop_ev, col_ev, (capR, capP, capE), np.array(model.mass)
+
+
+def compare_afssh(spec, out, states, hop_ev, col_ev, caps, mass):
+    N, n = 2, spec["n"]
+    steps = len(states)
+    if out[0] != "ok":
+        return "model said %r" % (out[:3],), {}
+    cm = 2 * N * N
+    per = 2 * n + cm + 4 + 2 * cm + 2 * n * cm
+    toks = out[1:]
+    if len(toks) != per * steps:
+        return "model returned %d tokens for %d steps (expected %d)" % (len(toks), steps, per * steps), {}
+    capR, capP, capE = caps
+    nacc = nfr = ncol = 0
+    mhops, mcols = [], []
+
+    def same(a, b, sc=None, rtol=1e-8):
+        sc = sc if sc is not None else float(np.max(np.abs(b))) + 1e-300
+        return allclose(np.concatenate([np.real(a).ravel(), np.imag(a).ravel()]), np.concatenate([np.real(b).ravel(), np.imag(b).ravel()]), sc, rtol=rtol)
+    for k in range(steps):
+        tk = toks[per * k: per * (k + 1)]
+        x = np.array([unfb(v) for v in tk[:n]])
+        v = np.array([unfb(v) for v in tk[n:2 * n]])
+        p = 2 * n
+        rho = ec.parse_cmat(tk[p:p + cm], N); p += cm
+        st, ev, to, nc = int(tk[p]), int(tk[p + 1]), int(tk[p + 2]), int(tk[p + 3]); p += 4
+        HR = ec.parse_cmat(tk[p:p + cm], N); p += cm
+        W = ec.parse_cmat(tk[p:p + cm], N); p += cm
+        dR = np.array([ec.parse_cmat(tk[p + q * cm:p + (q + 1) * cm], N) for q in range(n)]); p += n * cm
+        dP = np.array([ec.parse_cmat(tk[p + q * cm:p + (q + 1) * cm], N) for q in range(n)])
+        sx, sv, srho, sst, sdR, sdP = states[k]
+        if st != sst:
+            return "step %d: model on state %d, implementation on %d" % (k + 1, st, sst), {}
+        if not allclose(x, sx, 1.0 + float(np.max(np.abs(sx)))) or not allclose(v, sv, float(np.max(np.abs(sv))) + 1e-300):
+            return "step %d: position/velocity differ" % (k + 1), {}
+        if not same(rho, srho, 1.0):
+            return "step %d: density matrix differs by %.3g" % (k + 1, float(np.max(np.abs(rho - srho)))), {}
+        # the generators handed to eigh (LAPACK reads the lower triangle)
+        for name, mine, cap in (("advance_delR", HR, capR[k]), ("advance_delP", W, capP[k]), ("propagate_electronics", W, capE[k])):
+            if not same(np.tril(mine), np.tril(cap[0])):
+                return "step %d: the generator of %s differs from the model's (which electronics / velocities enter it)" % (k + 1, name), {}
+        msc = max(float(np.max(np.abs(sdR))), float(np.max(np.abs(sdP))), 1e-30)
+        if not same(dR, sdR, float(np.max(np.abs(sdR))) + 1e-12 * msc, rtol=1e-7) or not same(dP, sdP, float(np.max(np.abs(sdP))) + 1e-12 * msc, rtol=1e-7):
+            return "step %d: moments differ (delR %.3g, delP %.3g)" % (k + 1, float(np.max(np.abs(dR - sdR))), float(np.max(np.abs(dP - sdP)))), {}
+        if ev >= 0:
+            mhops.append((k, ev, to))
+            nacc += ev == 1
+            nfr += ev == 0
+        if nc:
+            mcols.append(k)
+            ncol += nc
+    ihops = [(int(round((tm - spec["t0"]) / spec["dt"])), acc, to) for (tm, acc, to) in hop_ev]
+    icols = [int(round((tm - spec["t0"]) / spec["dt"])) for tm in col_ev]
+    if ihops != mhops:
+        return "hop events differ: implementation %r, model %r" % (ihops[:6], mhops[:6]), {}
+    if icols != mcols:
+        return "collapse events differ: implementation at steps %r, model %r" % (icols[:8], mcols[:8]), {}
+    return None, {"steps": steps, "accepted": nacc, "frustrated": nfr, "collapses": ncol}
+
+
+def run_afssh_correspondence(ctx, count, label="afrun"):
+    rng = ctx.rng
+    specs, lines, recs = [], [], []
+    for i in range(count):
+        n = int(rng.integers(1, 4))
+        K = int(rng.integers(15, 45))
+        spec = dict(n=n, K=K, model_seed=int(rng.integers(1, 10 ** 6)), x0=[float(v) for v in rng.normal(size=n) * 0.5],
+                    p0=[float(v) for v in rng.normal(size=n) * 10 + 5], state=int(rng.integers(0, 2)), dt=float(rng.choice([1.0, 4.0, 10.0])),
+                    zetas=[float(z) for z in rng.random(K + 3) * rng.choice([0.05, 0.3, 1.0])], t0=float(rng.choice([0.0, 3.5])),
+                    seed=int(rng.integers(1, 2 ** 31)), gamma_scale=float([1.0, 30.0, 1000.0][i % 3]))
+        line, states, hop_ev, col_ev, caps, mass = record_afssh(spec)
+        specs.append(spec); lines.append(line); recs.append((states, hop_ev, col_ev, caps, mass))
+    outs = ctx.model.run(lines)
+    for spec, out, (states, hop_ev, col_ev, caps, mass) in zip(specs, outs, recs):
+        prob, st = compare_afssh(spec, out, states, hop_ev, col_ev, caps, mass)
+        ctx.case((label, spec["n"], min(st.get("accepted", 0), 2), min(st.get("collapses", 0), 2)),
+                 {"op": label, "n": spec["n"], "steps": len(states), "hops": hop_ev[:3], "collapses": col_ev[:3]})
+        ctx.count(label + "_runs")
+        ctx.count(label + "_steps", st.get("steps", 0))
+        ctx.count(label + "_accepted_hops", st.get("accepted", 0))
+        ctx.count(label + "_frustrated_hops", st.get("frustrated", 0))
+        ctx.count(label + "_collapses", st.get("collapses", 0))
+        if prob:
+            ctx.corr_mismatch(label, {k: v for k, v in spec.items() if k != "zetas"}, prob)
